@@ -103,7 +103,7 @@ func genC03(env *core.Env, emit func(core.Case)) {
 					continue
 				}
 				o := gen.PlanOpts{NOuterOpaque: k, NInnerOpaque: nin, MaxExtLen: 60, Padding: paddings[r.IntN(len(paddings))], SIDLen: sids[r.IntN(3)],
-					RefMask: mask, MarkerPos: mp, InnerName: hostName(r), ALPN: alpn, PublicName: "public.example", RefOuterVersions: r.IntN(5) == 0}
+					RefMask: mask, MarkerPos: mp, InnerName: innerNameOrNone(r), ALPN: alpn, PublicName: "public.example", RefOuterVersions: r.IntN(5) == 0}
 				run("subseq", o, gen.AllSuites[r.IntN(3)])
 			}
 		}
